@@ -15,7 +15,7 @@ EXPLANATION = (
     "all rounds with incremental release is the defective shape (a fiber re-entering round k+1 can be popped in place of "
     "a round-k straggler that has arrived but not yet enqueued).  Other interleaving behaviour is not decided.")
 NOT_DECIDED = ["'nobody passes early' and 'all return' over all interleavings beyond the structural rules"]
-ASSUMPTIONS = ["count >= 1 (asserted by fiber_barrier_init)"]
+ASSUMPTIONS = ["count >= 1 (asserted by fiber_barrier_init)", "the barrier is used by exactly `count` fibers (the statement's 'reused immediately by the same fibers'): with more participants than count the releasers of rounds k and k+2 can overlap on one single-consumer waiter list (hunt/H01 finding 1)"]
 B = "fiber_barrier"
 WAITQ = "fiber_manager_wait_in_mpsc_queue"
 WAKEQ = "fiber_manager_wake_from_mpsc_queue"
